@@ -26,7 +26,7 @@ LeafKinds == {Leaf(TRUE, f, n) : f \in BOOLEAN, n \in 1..MaxN} \cup {Leaf(FALSE,
 FuncKinds == {Func(f, n, s) : f \in BOOLEAN, n \in 1..MaxN, s \in Styles}
 
 Base == [nodes |-> <<>>, top |-> 1, conns |-> << <<>> >>, ctx0 |-> <<FALSE>>, runs |-> 1,
-         acts |-> {0, 1, 2}, outs |-> {"ok", "err"}, cancel |-> FALSE, nilstart |-> FALSE, flowretry |-> FALSE]
+         acts |-> {0, 1, 2}, outs |-> {"ok", "err"}, cancel |-> FALSE, nilstart |-> FALSE, flowretry |-> FALSE, zerobudget |-> FALSE]
 
 \* ---- one node run on its own -------------------------------------------
 SingleCfgs    == {[Base EXCEPT !.nodes = <<k>>] : k \in LeafKinds \cup FuncKinds}
@@ -110,6 +110,13 @@ Nest3Cfgs ==
 FlowRetryCfgs == {[Base EXCEPT !.nodes = <<Leaf(TRUE, f, 1), Leaf(FALSE, FALSE, 1), [FlowNode(1) EXCEPT !.N = 2], FlowNode(s)>>, !.top = 4,
                    !.conns = <<ConnSeq(3, << <<1, 1>>, <<2, 1>> >>, t) \o ConnSeq(4, << <<3, 1>> >>, <<u>>)>>, !.acts = {1}, !.outs = {"ok", "err"}, !.flowretry = TRUE] :
                      f \in BOOLEAN, s \in {3}, t \in [1..2 -> {-1, 0, 2}], u \in {-1, 0}}
+\* a retry budget below one (WithMaxRetries(0), WithMaxRetries(-1)): the attempt loop never runs, no fallback, post receives nil.
+\* Outside every property (they are quantified over budgets >= 1); modelled because the code allows it.
+ZeroBudgetCfgs ==
+  {[Base EXCEPT !.nodes = <<k>>, !.acts = {1}, !.zerobudget = TRUE] :
+      k \in {Leaf(TRUE, f, n) : f \in BOOLEAN, n \in {-1, 0}} \cup {Func(f, 0, s) : f \in BOOLEAN, s \in {<<"r", "r", "r">>, <<"a", "a", "a">>}}}
+  \cup {[Base EXCEPT !.nodes = <<Leaf(TRUE, TRUE, 0), Leaf(FALSE, FALSE, 1), [FlowNode(1) EXCEPT !.N = n]>>, !.top = 3,
+                  !.conns = <<ConnSeq(3, << <<1, 1>>, <<2, 1>> >>, <<2, 0>>)>>, !.acts = {1}, !.zerobudget = TRUE] : n \in {0, 1}}
 \* a flow without a start node
 NilStartCfgs == {[Base EXCEPT !.nodes = <<Leaf(TRUE, FALSE, 1), FlowNode(0), FlowNode(s)>>, !.top = 3,
                   !.conns = <<ConnSeq(3, << <<1, 1>>, <<2, 1>> >>, t)>>, !.acts = {1}, !.outs = {"ok"}, !.nilstart = TRUE] :
@@ -133,6 +140,7 @@ Cfgs == CASE Family = "single"       -> SingleCfgs
           [] Family = "nest3"        -> Nest3Cfgs
           [] Family = "nilstart"     -> NilStartCfgs
           [] Family = "flowretry"    -> FlowRetryCfgs
+          [] Family = "zerobudget"   -> ZeroBudgetCfgs
 
 MCInit == \E c \in Cfgs : InitWith(c)
 MCSpec == MCInit /\ [][Next]_vars
@@ -141,6 +149,12 @@ MCSpec == MCInit /\ [][Next]_vars
 VisitBound == Cardinality({i \in 1..Len(h) : h[i].ev = "prep"}) <= MaxVisits
 
 Terminal == ph = "done"
+\* what the code does with a budget below one: no exec attempt and no fallback for that node, and its post (if its prep
+\* succeeded) receives nil as the exec result
+ZeroBudgetSkipsExec ==
+  Terminal => \A i \in 1..Len(h) :
+     /\ (h[i].ev \in {"exec", "fb"} => ~(cfg.nodes[h[i].node].retry /\ cfg.nodes[h[i].node].N < 1))
+     /\ ((h[i].ev = "post" /\ cfg.nodes[h[i].node].retry /\ cfg.nodes[h[i].node].N < 1) => h[i].exec = 0)
 InvC01 == Terminal => P!C01_OK(cfg, h)
 InvC02 == Terminal => P!C02_OK(cfg, h)
 InvC03 == Terminal => P!C03_OK(cfg, h)
